@@ -102,7 +102,13 @@ func serve() {
 			fmt.Fprintln(w, ".")
 		case strings.HasPrefix(line, "RUN "):
 			s := &sinkT{}
-			o, nt := c05tRun(line[4:], s)
+			var o string
+			var nt bool
+			if strings.HasPrefix(line[4:], "xc06thrift ") {
+				o, nt = c06tRun(line[4:], s)
+			} else {
+				o, nt = c05tRun(line[4:], s)
+			}
 			for _, k := range s.counts {
 				fmt.Fprintln(w, "#C "+k)
 			}
